@@ -850,6 +850,7 @@ class FTPFS(FS):
 
     def setinfo(self, path, info):
         # type: (Text, RawInfo) -> None
+        _path = self.validatepath(path)
         use_mfmt = False
         if "MFMT" in self.features:
             info_details = None
@@ -867,7 +868,7 @@ class FTPFS(FS):
                     "MFMT "
                     + datetime.datetime.utcfromtimestamp(mtime).strftime("%Y%m%d%H%M%S")
                     + " "
-                    + _encode(path, self.ftp.encoding)
+                    + _encode(_path, self.ftp.encoding)
                 )
                 try:
                     self.ftp.sendcmd(cmd)
